@@ -40,6 +40,7 @@ func genEvalCache(g *gen) {
 		order := int64(0)
 		steps := 10 + g.intn(40)
 		for s := 0; s < steps; s++ {
+			_ = s
 			switch x := g.intn(100); {
 			case x < 30:
 				order++
@@ -59,6 +60,17 @@ func genEvalCache(g *gen) {
 				g.emit("S cage 8")
 				g.emit("S cq %s %s %d", pickC(), pickG(), g.intn(2))
 			}
+		}
+		if i%12 == 5 {
+			// a cache miss on an existing group while the storage subsystem is slow to accept the evaluator's fetch:
+			// the answer is still the group's status, and it is what gets cached
+			c, gr := hexName(clusters[g.intn(len(clusters))]), hexName(g.pickS("c", "g", "b c"))
+			order++
+			g.emit("S commit %s %s %s 0 %d %d %d", c, gr, hexName("t"), 90+order, order, -2000+order*500)
+			g.emit("S cage 30008")
+			g.emit("S cqslow %s %s %d", c, gr, g.intn(2))
+			g.emit("S cage 8")
+			g.emit("S cq %s %s 1", c, gr)
 		}
 	}
 }
